@@ -129,7 +129,7 @@ def make_frame(case):
         df, meta = frames.factorial_frame(rng, factors, reps=reps, numerics=("x", "z"), kinds={f: kinds[f] for f in factors})
     else:
         df, meta = frames.factorial_frame(rng, factors, reps=1, numerics=("x", "z"), kinds={f: kinds[f] for f in factors},
-                                          extra_rows=int(rng.integers(0, 12)))
+                                          extra_rows=int(rng.integers(8, 20)))
         # unbalanced: drop random rows (cells may become empty, levels stay observed at least once)
         keep = rng.random(len(df)) < 0.75
         for f in factors:
@@ -237,6 +237,9 @@ def judge(case, m):
             m.violation("cells-and-terms",
                         f"{name}: {block.shape[1]} columns for {ncell} cells; groups {G.terms[name].groups} vs {_cell_labels(meta, ft)}",
                         case=case, key="cells")
+            continue
+        if not np.isfinite(block).all():
+            m.note("non-finite-block-not-judged")  # e.g. poly of degree >= number of points
             continue
         p = block.shape[1] // ncell
         try:
